@@ -228,6 +228,23 @@ class Registry:
         self._unsup('dict() of symbolic collection', line)
 
     def dict_update(self, eng, d, args, kw, line):
+        # d.update(other) with a heap dict of the same typing: keys of both, the other's value where it has the key;
+        # the insertion order of the result is left unspecified (havoc of the order ghost)
+        from .core import DictV, sort_of
+        import z3
+        if (len(args) == 1 and not kw and isinstance(args[0], DictV) and sort_of(args[0].kty) == sort_of(d.kty)
+                and sort_of(args[0].vty) == sort_of(d.vty)):
+            o = args[0]
+            hn, ha = eng.dict_has(d)
+            vn, va = eng.dict_val(d)
+            oh, ov = eng.dict_has(o)[1][o.ref], eng.dict_val(o)[1][o.ref]
+            k = z3.Const('k!upd', sort_of(d.kty))
+            new_has = eng.def_array([k], z3.Or(ha[d.ref][k], oh[k]))
+            new_val = eng.def_array([k], z3.If(oh[k], ov[k], va[d.ref][k]))
+            eng.heap.set(hn, z3.Store(ha, d.ref, new_has))
+            eng.heap.set(vn, z3.Store(va, d.ref, new_val))
+            eng._dict_order_havoc(d)
+            return None
         self._unsup('dict.update', line)
 
     def dictcomp(self, eng, n, fr, q):
